@@ -146,7 +146,7 @@ static string FROM_FILE;    // (resume through the file name: Solver::solve(cons
 struct Run {
   CtcHC4* hc4; CtcAcid* acid; CtcCompo* compo; CtcNewton* newton; CtcCompo* withnewton; LogCtc* lctc; Bsc* bsc;
   CellStack stack; CellList list; LogBuffer* lbuf; Solver* s; vector<string> log; Solver::Status st;
-  Run(Problem& P, const Config& c, const CovSolverData* from, long cell_limit, double time_limit, const IntervalVector& root) {
+  Run(Problem& P, const Config& c, const CovSolverData* from, long cell_limit, double time_limit, const IntervalVector& root, long interactive = -1) {
     System& sys = *P.sys;
     hc4 = new CtcHC4(sys, 0.01); acid = new CtcAcid(sys, *hc4); compo = new CtcCompo(*hc4, *acid);
     Ctc* base = c.ctc_kind == 0 ? (Ctc*)hc4 : (Ctc*)compo;
@@ -160,6 +160,13 @@ struct Run {
     if (c.btest >= 0) s->boundary_test = (Solver::boundary_test_strength)c.btest;
     RNG::srand(1);
     LOG = &log;
+    if (interactive >= 0) {
+      // the interactive API (documented way to store the state of a search): start(), some calls of next(), flush().
+      // No status is written in this mode: the paving keeps the default one although it contains pending boxes.
+      s->start(root); CovSolverData::BoxStatus bs;
+      for (long i = 0; i < interactive; i++) if (!s->next(bs)) break;
+      s->flush(); st = (Solver::Status)s->get_data().solver_status();
+    } else
     st = from ? (c.byname && !FROM_FILE.empty() ? s->solve(FROM_FILE.c_str()) : s->solve(*from)) : s->solve(root);
     LOG = 0;
     check_round_up("solver");
@@ -191,10 +198,12 @@ static void wl_resume(Rng& r, long count, bool full, const string& file) {
       long maxk = full ? 120 : 24;
       if ((long)ks.size() > maxk) { vector<long> sel; for (long k : ks) if (k <= 3 || k >= N - 8 || r.coin((int)(100 * maxk / ks.size()))) sel.push_back(k); ks = sel; }
       ks.push_back(-2);   // interruption by the time limit (non-deterministic point)
+      ks.push_back(-3); if (N > 2) ks.push_back(-3);   // interactive mode: start(), a few next(), flush(); then save / reload / resume with solve()
       for (long k : ks) {
         RUN_ID++; DISCARDS.clear(); REPLACED.clear();   // (one id for the whole chain of interrupted / resumed runs: a lost solution shows at the end of the chain)
         int links = r.coin(25) ? (int)r.range(2, 3) : 1;
-        Run* cur = (k == -2) ? new Run(P, c, 0, -1, 1e-4 * r.range(1, 20), root) : new Run(P, c, 0, k, 60, root);
+        Run* cur = (k == -3) ? new Run(P, c, 0, -1, 60, root, r.range(0, (int)std::min(N, 6L))) :
+                   (k == -2) ? new Run(P, c, 0, -1, 1e-4 * r.range(1, 20), root) : new Run(P, c, 0, k, 60, root);
         if (cur->log.size() < 3000) {
           string pv = paving_token(cur->s->get_data(), P.n, P.m);
           EMIT("solvelog %s %s %s %s %s %s run%ld => %s\n", P.dags.c_str(), P.specs.c_str(), tok(root).c_str(), cur->events().c_str(), pv.c_str(), vtok(c.eps_min).c_str(), RUN_ID, status_name(cur->st));
